@@ -143,6 +143,9 @@ func ComputeEntropy(inTxHash []byte, inTxIndex uint32, contractHash []byte) ([]b
 	if len(inTxHash) != 32 {
 		return nil, errors.New("invalid tx hash length")
 	}
+	if len(contractHash) != 32 {
+		return nil, errors.New("invalid contract hash length")
+	}
 
 	s := bufferutil.NewSerializer(nil)
 
